@@ -1,6 +1,6 @@
 (* C15, the decision "matched / incompatible / nothing" at the two call sites
-     DcpsDomainParticipant::process_discovered_readers (discovery_methods.rs:800)
-     DcpsDomainParticipant::process_discovered_writers (discovery_methods.rs:1348)
+     DcpsDomainParticipant::process_discovered_readers (discovery_methods.rs:871)
+     DcpsDomainParticipant::process_discovered_writers (discovery_methods.rs:1494)
    for ONE local endpoint and ONE discovered endpoint, in the branch where the discovered
    data carries no TypeInformation (types are then compared by name).  Definitions only. *)
 From DustDDS Require Export Base.Machine Qos.CompatModel Qos.PartitionModel.
